@@ -1,10 +1,10 @@
 """C10 — durations: unit lengths, additivity, greedy printing and 'as' flooring."""
 from tools import common as C, wire, oracle as O
 
-LEAN_MODULES = ["SCP.C10"]
+LEAN_MODULES = ["SCP.C10", "SCP.C18Date"]
 THEOREMS = ["SCP.C10." + t for t in """parse_len parse_days parse_months twelve_months_one_year add_durations sub_durations combine_2 combine_3
 phrase_combine_2 phrase_combine_6 partsFrom_sum partsFrom_pos partsFrom_desc partsFrom_leading greedy_sum greedy_counts_pos
-greedy_descending greedy_zero greedy_leading as_floor patterns_at_least_two""".split()]
+greedy_descending greedy_zero greedy_leading as_floor patterns_at_least_two""".split()] + ["SCP.C18Date.deleteRule_keeps_internal"]
 RULE = ("counts {0,1,2, carry boundaries 59/60/61, 23/24/25, 6/7/8, 29/30/31, 364/365/366, 11/12/13, random up to 10^6} x all unit "
         "spellings (en, and tr for juxtaposed parts); sequences of 1-7 juxtaposed parts in random order with repetitions; + and -; 'as' each of the "
         "five targets; oracle = integer spec; the printed text is parsed back into (count, word) parts: sum = |d|, greedy, "
